@@ -35,7 +35,16 @@ EXPLANATION = (
     "or lost (C04_overlap_exactly_once); false of the code before repair fix-C04e (C04_overlap_refuted_unrepaired; true part "
     "C04_overlap_guarded_unrepaired) and of a guard evaluated in front of the lock (C04_overlap_guard_position_matters). Tie: the "
     "real adapter driven op by op against the model. Search: 1-3 consumers of one run's stream alive at once on live workflows, "
-    "all four outcome kinds, under the virtual loop - all finished once the run has ended and nothing is runnable."
+    "all four outcome kinds, under the virtual loop - all finished once the run has ended and nothing is runnable. "
+    "Steps that take a while to stop: worker-cleanup model of _ControlLoopRunner.cleanup_tasks (every ending runs it before the terminal "
+    "event is published): the rest of a cancelled body is any list of segments (wait; a further cancellation aborts it / ends the waiting / "
+    "is ignored; optional write), the await is the one re-extracted from the source (wait_for(gather(..), 0.5): on expiry cancels again and "
+    "returns only when all are done): when the method returns no worker is running and none writes later, for all bodies and grace periods "
+    "(C04_cleanup_holds, C04_cleanup_any_grace, C04_cleanup_returns_with_last); false of asyncio.wait(.., timeout) in its place "
+    "(C04_cleanup_refuted_wait_only; true part C04_cleanup_wait_only_partial). Tie: the real method on harness-made tasks against the model. "
+    "Search: live runs ending all four ways while 1-3 helper steps with asynchronous cancellation teardowns (0.125-2.5 s, four reactions to a "
+    "second cancel) are at work, loop kept going after the end - nothing after the terminal event, ever; no step body in flight once the "
+    "outcome is available."
 )
 ASSUMPTIONS = suite.ENGINE_ASSUMPTIONS + [
     "steps returning non-events are turned into step failures by the step wrapper (exercised by the monitors, 'ret bad' scripts)",
@@ -47,6 +56,11 @@ ASSUMPTIONS = suite.ENGINE_ASSUMPTIONS + [
     "still end a run without a terminal event",
     "several consumers: consumer tasks are not cancelled while they wait; a consumer that has been given the terminal event eventually "
     "asks for the next item or closes its generator (model: `finish`); asyncio.Lock is FIFO without barging (CPython 3.12, trusted)",
+    "stopping workers: nobody cancels the run's task from outside while cleanup_tasks waits (a second handler.cancel() during the grace "
+    "interrupts the wait: DESIGN 14.3, C30 observation); sync steps (executor threads) cannot be cancelled and are not counted as alive; "
+    "asyncio.wait_for / gather / wait semantics (CPython 3.12) enter the worker-cleanup model as read and are exercised by its correspondence; "
+    "a teardown ending in the very instant the grace period expires (two equal timers) is not modelled (driver: `tie`); the engine-runner "
+    "correspondence skips runs whose reducer is called at a fractional virtual time",
 ]
 
 
@@ -125,13 +139,8 @@ def _teardown_runs(env: Env, out: Outcome, n: int) -> None:
     rng = random.Random(env.rng.randrange(1 << 30))
     jobs = [{"spec": sp, "seed": 0} for item in suite.load_corpus("C04/teardown") for sp in item["specs"]]
     jobs += [{"spec": gen_teardown_spec(rng), "seed": rng.randrange(1 << 30)} for _ in range(n)]
-    traces = suite.live_runs(env, out, 0, [monitors.mon_c04], extra_specs=jobs, check_runner=False)
-    # (K) the engine model's clock is integral: a run whose reducer is called again after a cancel grace that was used up
-    # (the StopEvent's tick at +0.5 s) cannot be encoded; all others go through the runner correspondence
-    integral = [tr for tr in traces if all(float(c.now).is_integer() for c in tr.calls)]
-    out.count("teardown:runner_correspondence", len(integral))
-    out.count("teardown:runner_correspondence_skipped_fractional_time", len(traces) - len(integral))
-    suite.runner_corr(out, integral)
+    # (K) runner correspondence too, except for runs whose reducer is called at a fractional time (see suite.live_runs)
+    traces = suite.live_runs(env, out, 0, [monitors.mon_c04], extra_specs=jobs)
     for tr in traces:
         if not tr.spec.get("drain_after_end"):
             continue  # (a replayed case of another family)
@@ -281,7 +290,7 @@ def _cleanup_runs(env: Env, out: Outcome, n: int) -> None:
 def run(env: Env) -> Outcome:
     out = Outcome()
     out.rule = ("direct (state,tick) pairs + live scripted workflows (steps that raise, return non-events, race with StopEvent, "
-                "cancel/timeout externals, raising retry policies in a tenth of the specs); run histories reusing one run_id on one runtime; several consumers of one run's stream alive at once (all four outcome kinds); non-trivial = more than 2 ticks; distinct by (spec, schedule)")
+                "cancel/timeout externals, raising retry policies in a tenth of the specs); run histories reusing one run_id on one runtime; several consumers of one run's stream alive at once (all four outcome kinds); runs ending while steps with slow cancellation teardowns are at work (all four outcome kinds, teardown times on both sides of the cancel grace); cleanup_tasks on generated worker programs; non-trivial = more than 2 ticks; distinct by (spec, schedule)")
     suite.direct_corr(env, out, env.budget(3000, 60000))
     suite.live_runs(env, out, env.budget(400, 8000), [monitors.mon_c04], extra_specs=[c for c in suite.load_corpus("C04") if "spec" in c],
                     mutate_spec=_raising)
@@ -289,6 +298,6 @@ def run(env: Env) -> Outcome:
     _reuse_runs(env, out, env.budget(150, 3000))
     _overlap_runs(env, out, env.budget(220, 3000))
     _gate_runs(env, out, env.budget(250, 4000))
-    _teardown_runs(env, out, env.budget(120, 2400))
+    _teardown_runs(env, out, env.budget(120, 1200))
     _cleanup_runs(env, out, env.budget(150, 3000))
     return out
